@@ -130,4 +130,28 @@ CHECKS["C02"] = {
     "level_note": "Trusted: the discrete-event reference in harness/gx.h (ref_run) and LifecycleObserver::on_before/after_graph_evaluation as the report of cycle times.",
 }
 
+CHECKS["C08"] = {
+    "title": "Feedback delivers each value exactly one smallest time step later",
+    "level": "exploration",
+    "technique": "exhaustive bounded enumeration of writer histories (with repeated values) over feedback topologies on the real engine; "
+                 "differential oracle: reader probe == writer probe shifted by exactly one step",
+    "design_ref": "DESIGN.md 2/C08",
+    "parts": [{"name": "feedback", "exe": "c08_feedback", "sources": ["c08_feedback.cpp"], "shards": 16}],
+    "rule": "topologies: open loop TS (with and without declared initial value), TSS, TSD; self loop out=ts+fb with an active reader (window of 14 "
+            "steps) and with a passive reader (must go quiescent); the same two inside nested_; two independent loops ticking together; a "
+            "mutual loop (active / passive); a TSS feedback bound to an if_then_else-selected writer. Histories: every sequence over T cycles of "
+            "{no write, write 1, write 2} (equal values on consecutive steps included); for sets {none,+1,+2,-1,-2,+1+2,clear,+1-1}^T, for dicts "
+            "{none,set/erase of two keys}^T. Oracle: the probe on the feedback reader port logs exactly the writer probe's ticks (canonical delta + "
+            "value) one step later, prefixed by the initial value at start; the loop body never reads a value written in its own cycle; passive "
+            "loops stop cycling one step after the last input. non-trivial = a writer ticked on two consecutive steps.",
+    "bounds": {"quick": "T=5 (TS), T=4 (collections, two-writer templates)", "thorough": "T=6 (TS), T=5 (collections, two-writer templates)"},
+    "min_counters": {"quick": {"nontrivial": 20000, "feedback.cases_selfp": 200, "feedback.cases_tsd": 1000}},
+    "assumptions": COMMON_ASSUMPTIONS + [
+        "Ticks whose net delta is empty (e.g. removing an absent element) write no value and are not required to be delivered.",
+        "For the reference-selected writer only value changes and their times are compared (the delta seen on a retarget is C13's subject).",
+    ],
+    "level_text": "Complete enumeration of the bounded history space per topology on the real engine with a differential (writer vs reader) oracle.",
+    "level_note": "Trusted: capture_delta/Value::to_string as the rendering of what a probe node sees; the writer-side probe as ground truth of what was written.",
+}
+
 NOT_APPLICABLE = {}
